@@ -18,6 +18,8 @@ func checkC13(c *Ctx) {
 	c.Rule("C13-R2", "every force-dirty site reachable from Show lies behind resize()'s size-changed test or is a documented neighbour site")
 	c.Rule("C13-R3", "cell payload is written only from drawCell (writeString callers)")
 	c.Rule("C13-R4", "LockRegion(lock) calls LockCell only under lock==true and UnlockCell only under lock==false")
+	c.Rule("C13-R7", "the snapshot taken when a cell is marked clean is exactly what Dirty compares with (last* = curr* and nothing else), so an unchanged cell is clean at the next Show")
+	c.Expect("C13-R7", 6)
 	c.Rule("C13-R5", "the content-changed tests of CellBuffer do not tell a nil combining list from an empty one (the stored copy is always non-nil): reflect.DeepEqual on combining lists only under a non-zero length guard")
 	c.Rule("C13-R6", "the lock flag of a cell is written only by LockCell (true) and UnlockCell (false); nothing else (invalidation, resize of surviving cells, whole-cell copies) can unlock a cell behind the application's back")
 	c.Expect("C13-R5", 1)
@@ -57,6 +59,8 @@ func checkC13(c *Ctx) {
 	ws := sortedKeys(set)
 	c.Check(len(ws) == 2 && ws[0] == "Beep" && ws[1] == "drawCell", "C13-R3", "writeString:callers", "-", fmt.Sprintf("callers of the raw writer: %v", ws))
 	c13ListCompare(c, p)
+	checkCleanMarkCallers(c, p, "C13-R1")
+	c.asRule("C08-R2", "C13-R7", func() { c08Pairs(c, p, cbMethods(p)) })
 	{
 		ws := map[string]string{}
 		whole := ""
